@@ -25,7 +25,7 @@ ASSUMPTIONS = [
 COMPONENTS = {'real': ['yldprolog.engine unify/Variable/Atom/Functor/unify_arrays', 'CPython generators, refcount finalisation'],
               'stub': ['consumer (seeded scheduler holding the generators)'],
               'oracle': ['Robinson unifier over tuple terms with substitution stack (ypsim.terms)']}
-REQUIRED_PROBES = ('push_of_kept_term', 'push_of_big_terms', 'push_under_long_chain', 'started_under_more_bindings_than_created', 'atoms_of_another_engine', 'push_ok', 'push_fail', 'push_under_bindings', 'pop_close', 'pop_drop', 'pop_resume', 'pop_throw', 'fault_recursion_inside_unify', 'fault_boundvar', 'swap_trial')
+REQUIRED_PROBES = ('clear_under_open_unifications', 'push_of_kept_term', 'push_of_big_terms', 'push_under_long_chain', 'started_under_more_bindings_than_created', 'atoms_of_another_engine', 'push_ok', 'push_fail', 'push_under_bindings', 'pop_close', 'pop_drop', 'pop_resume', 'pop_throw', 'fault_recursion_inside_unify', 'fault_boundvar', 'swap_trial')
 
 
 def gen(seed, tier):
@@ -68,6 +68,10 @@ def gen(seed, tier):
         if k < 0.09:
             t2 = TM.rnd_term(rng, nv + 2, depth, lists=lists)
             ops.append(['PUSHK', rng.randrange(4), TM.J(t2), rng.random() < 0.3, rng.choice(('near', 'near', 'var', 'given'))])
+            continue
+        if k < 0.105:
+            # clear() on the engine (its atoms, facts and rules go; the consumer's open unifications are none of its business)
+            ops.append(['CLEAR'])
             continue
         if k < 0.12:
             ops.append(['NEWVAR'])
@@ -240,6 +244,14 @@ def execute(plan):
                     continue
                 e1, e2 = pool.build(t1), build2(t2, foreign)
                 if not judge(t1, t2, e1, e2, lambda: unify(e1, e2), op[3], foreign, 'push'):
+                    break
+            elif op[0] == 'CLEAR':
+                yp.clear()
+                log.count('clear_under_open_unifications' if stack else 'clear')
+                log.ev('clear')
+                form = pool.observe_all()
+                if form != pool.model_all(s):
+                    log.violation('clear-changed-bindings', {'engine': [TM.show(x) for x in form], 'model': [TM.show(x) for x in pool.model_all(s)]})
                     break
             elif op[0] == 'KEEP':
                 if len(kept) < 4:
